@@ -291,7 +291,12 @@ def list_expr(
             # can `x` be ignored ?
             if use_dom:
                 dom = fol.vars[x]['dom']
-                a, b = tyh._clip_subrange((a, b), dom, x)
+                # an interval outside the type hint is possible when
+                # `f` has points outside the care set
+                # (`_check_type_hint` above warns about it);
+                # it cannot be clipped, so it is listed as it is
+                if a <= dom[1] and b >= dom[0]:
+                    a, b = tyh._clip_subrange((a, b), dom, x)
             if a is None and b is None:
                 continue
             if a == b:
